@@ -1842,3 +1842,363 @@ Proof.
       destruct (order_ok ef (map (fun v : var => (v_begin v, var_len dims v)) (fr :: frs))) as [er|]; [|discriminate].
       exists er. reflexivity.
 Qed.
+
+(* ------------------------------------------------------------------ *)
+(** ** C04 reader_accepts_valid *)
+
+Lemma pure_fst : forall S A (r : res A) (s : S * acct), fst (pure r s) = r.
+Proof. intros S A [a|e|c] s; reflexivity. Qed.
+
+Theorem flat_accepts_valid : forall mm f d, decode f = Some d -> c04_valid mm d = true ->
+  open_flat mm f = Ok (expected_open d).
+Proof.
+  intros mm f d Hdec Hval.
+  destruct (decode_inv f d Hdec) as (ver & r & nr & r1 & dims & r2 & gatts & r3 & vars & r4 &
+                                      Hf & Hver & E1 & E2 & E3 & E4 & Hd).
+  pose proof (c04_valid_inv mm d Hval) as Hinv. cbv zeta in Hinv.
+  rewrite Hd in Hinv. cbn [dc_hdr dc_len h_numrecs h_dims h_gatts h_vars h_format] in Hinv.
+  destruct Hinv as (Hnr & Hcd & Hcg & Hcv & HdQ & Hdn & Hun & HgQ & HvQ & Hrd & Hrg & Hrv & Hmm & Hlay & Hvl & Hlen).
+  rewrite !Zlen_map in *.
+  (* dispatcher *)
+  assert (Hfmt : inq_file_format f = Ok ver).
+  { unfold inq_file_format. subst f.
+    assert (4 <= Zlen r).
+    { unfold p_nn, p_u32, p_u64 in E1. destruct (ver <? 5).
+      - destruct r as [|a [|b [|c [|e r']]]]; try discriminate. unfold Zlen. cbn [length]. lia.
+      - unfold get_u64 in E1. destruct r as [|a [|b [|c [|e r']]]]; try discriminate. unfold Zlen. cbn [length]. lia. }
+    rewrite !Zlen_cons. replace (1 + (1 + (1 + (1 + Zlen r))) <? 8) with false by lia.
+    change (bytes_eqb (zfirstn 3 (67 :: 68 :: 70 :: ver :: r)) [67; 68; 70]) with true.
+    change (znth (67 :: 68 :: 70 :: ver :: r) 3 0) with ver. cbn [andb].
+    destruct Hver as [-> | [-> | ->]]; reflexivity. }
+  unfold open_flat. rewrite Hfmt. unfold read_header_flat, hdr_get_NC.
+  (* magic *)
+  assert (Em : lift (gbytes fsrc 4) (f, acct0) = (Ok [67; 68; 70; ver], (r, acct0))).
+  { unfold lift. cbn [fst snd gbytes fsrc]. unfold f_gbytes. subst f.
+    rewrite take_z_enough by (rewrite !Zlen_cons; pose proof (Zlen_nonneg _ r); lia).
+    change (67 :: 68 :: 70 :: ver :: r) with ([67; 68; 70; ver] ++ r).
+    change 4 with (Zlen [67; 68; 70; ver]). now rewrite zfirstn_app_exact, zskipn_app_exact. }
+  rewrite (bind_ok _ _ _ _ _ _ _ _ Em).
+  change (bytes_eqb (zfirstn 3 [67; 68; 70; ver]) [67; 68; 70]) with true. cbn [negb].
+  change (znth [67; 68; 70; ver] 3 0) with ver.
+  replace (negb ((ver =? 1) || (ver =? 2) || (ver =? 5))) with false by (destruct Hver as [-> | [-> | ->]]; reflexivity).
+  rewrite (bind_ok _ _ _ _ _ _ _ _ (flat_nn ver r nr r1 acct0 E1)).
+  (* dim_list *)
+  apply (proj1 (Forall_map_iff _ _ dd_dim (dimQ mm) dims)) in HdQ.
+  rewrite Zlen_filter_map in Hun.
+  destruct (flat_dimarray mm ver r1 dims r2 acct0 E2 HdQ ltac:(unfold SZ_NC_DIM, SZ_NC_VAR in *; lia) Hcd Hrd Hun) as [a1 F1].
+  rewrite (bind_ok _ _ _ _ _ _ _ _ F1).
+  (* gatt_list *)
+  apply (proj1 (Forall_map_iff _ _ da_att (attQ mm) gatts)) in HgQ.
+  destruct (flat_attarray mm ver r2 gatts r3 a1 Hver E3 HgQ ltac:(unfold SZ_NC_ATTR, SZ_NC_VAR in *; lia) Hcg Hrg) as [a2 F2].
+  rewrite (bind_ok _ _ _ _ _ _ _ _ F2).
+  (* var_list *)
+  apply (proj1 (Forall_map_iff _ _ dv_var (varQ mm (Zlen dims)) vars)) in HvQ.
+  rewrite Zlen_map.
+  destruct (flat_vararray mm ver (Zlen dims) r3 vars r4 a2 Hver E4 HvQ Hmm Hcv Hrv) as [a3 F3].
+  rewrite (bind_ok _ _ _ _ _ _ _ _ F3).
+  cbv beta. rewrite (pure_fst (list byte) opened _ (r4, a3)). rewrite to_i64_id by exact Hnr.
+  rewrite !map_map. cbn [fst snd]. change (fun x : dec_var => dv_var x) with dv_var.
+  (* post-processing *)
+  pose proof (post_open_ok (map dd_dim dims) Hdn ver nr (map da_att gatts) (map dv_var vars) Hlay Hvl) as Hpost.
+  cbv zeta in Hpost. rewrite map_map in Hpost. rewrite Hpost.
+  unfold expected_open. rewrite Hd. cbn [dc_hdr dc_len h_dims h_vars]. rewrite Hlen. reflexivity.
+Qed.
+
+(* C04 reader_accepts_valid: every specification-valid file is accepted, for EVERY chunk size,
+   and the NC object holds exactly the decoded header, the derived layout (begin_var, begin_rec,
+   recsize: vsize fields ignored and recomputed), lens and the number of record variables *)
+Theorem reader_accepts_valid : forall hint mm f d,
+  decode f = Some d -> c04_valid mm d = true ->
+  out_res (open_model hint mm f) = Ok (expected_open d).
+Proof. intros. rewrite chunk_decode_eq_flat. now apply flat_accepts_valid. Qed.
+
+(* composition with the encoder round trip (Proofs_Header.decode_encode_full): every file whose
+   header was written by the encoder model, followed by ANY bytes (gaps, junk, data), is read back
+   exactly, provided the decoded header is valid in the sense of c04_valid *)
+Theorem encoded_read_back : forall hint mm h rest,
+  wf_hdr h = true -> c04_valid mm (decoded_of h) = true ->
+  out_res (open_model hint mm (encode_header h ++ rest)) = Ok (expected_open (decoded_of h)) /\
+  o_hdr (expected_open (decoded_of h)) = hdr_content h.
+Proof.
+  intros hint mm h rest Hwf Hval. split; [|reflexivity].
+  apply reader_accepts_valid; [now apply decode_encode_full | exact Hval].
+Qed.
+
+(* a CDF-2 file produced by the free-choice encoder tools/c04_gen.py (fixed_schema): saturated and
+   stale vsize fields, a zero-length attribute, an ABSENT list written as TAG 0, gaps and junk bytes
+   between header and data and between variables.  The hypotheses of reader_accepts_valid hold. *)
+Definition ex_valid_file : list byte :=
+  [67; 68; 70; 2; 0; 0; 0; 2; 0; 0; 0; 10; 0; 0; 0; 3; 0; 0; 0; 1; 116; 0; 0; 0; 0; 0; 0; 0; 0; 0; 0; 5; 108; 97; 116; 120; 120; 0; 0; 0; 0; 0; 0; 3; 0; 0; 0; 3; 108; 111; 110; 0; 0; 0; 0; 2; 0; 0; 0; 12; 0; 0; 0; 3; 0; 0; 0; 5; 116; 105; 116; 108; 101; 0; 0; 0; 0; 0; 0; 2; 0; 0; 0; 5; 65; 66; 67; 68; 69; 0; 0; 0; 0; 0; 0; 1; 118; 0; 0; 0; 0; 0; 0; 6; 0; 0; 0; 2; 63; 248; 0; 0; 0; 0; 0; 0; 192; 2; 0; 0; 0; 0; 0; 0; 0; 0; 0; 5; 101; 109; 112; 116; 121; 0; 0; 0; 0; 0; 0; 4; 0; 0; 0; 0; 0; 0; 0; 11; 0; 0; 0; 4; 0; 0; 0; 3; 102; 105; 120; 0; 0; 0; 0; 2; 0; 0; 0; 1; 0; 0; 0; 2; 0; 0; 0; 12; 0; 0; 0; 2; 0; 0; 0; 5; 117; 110; 105; 116; 115; 0; 0; 0; 0; 0; 0; 2; 0; 0; 0; 3; 109; 47; 115; 0; 0; 0; 0; 2; 115; 99; 0; 0; 0; 0; 0; 3; 0; 0; 0; 3; 0; 1; 0; 2; 255; 254; 0; 0; 0; 0; 0; 4; 255; 255; 255; 255; 0; 0; 0; 0; 0; 0; 1; 136; 0; 0; 0; 4; 114; 101; 99; 49; 0; 0; 0; 2; 0; 0; 0; 0; 0; 0; 0; 1; 0; 0; 0; 12; 0; 0; 0; 1; 0; 0; 0; 1; 97; 0; 0; 0; 0; 0; 0; 1; 0; 0; 0; 1; 127; 0; 0; 0; 0; 0; 0; 3; 0; 0; 48; 57; 0; 0; 0; 0; 0; 0; 1; 180; 0; 0; 0; 4; 115; 99; 97; 108; 0; 0; 0; 0; 0; 0; 0; 12; 0; 0; 0; 0; 0; 0; 0; 6; 0; 0; 0; 8; 0; 0; 0; 0; 0; 0; 1; 168; 0; 0; 0; 4; 114; 101; 99; 50; 0; 0; 0; 1; 0; 0; 0; 0; 0; 0; 0; 0; 0; 0; 0; 0; 0; 0; 0; 5; 0; 0; 0; 4; 0; 0; 0; 0; 0; 0; 1; 188; 68; 164; 71; 245; 34; 122; 157; 132; 126; 234; 193; 183; 168; 133; 43; 83; 117; 59; 40; 91; 241; 130; 47; 206; 224; 255; 17; 74; 199; 51; 162; 40; 56; 250; 20; 227; 40; 79; 119; 55; 175; 155; 225; 87; 22; 98; 31; 32; 42; 2; 50; 93; 18; 176; 38; 231; 79; 25; 182; 226; 148; 215; 250; 119; 121; 98; 7; 157; 42; 179; 60; 123; 83; 210; 149; 232].
+
+Example reader_accepts_valid_ex :
+  exists d, decode ex_valid_file = Some d /\ c04_valid 1048576 d = true /\
+            Zlen (h_vars (dc_hdr d)) = 4 /\ l_begin_var (o_lay (expected_open d)) = 392 /\
+            out_fetches (open_model 36 1048576 ex_valid_file) = 11.
+Proof.
+  destruct (decode ex_valid_file) as [d|] eqn:E; [|vm_compute in E; discriminate].
+  exists d. split; [reflexivity|]. vm_compute in E. inversion E. subst d. vm_compute. repeat split; reflexivity.
+Qed.
+
+(* ================================================================== *)
+(** * Part E: C19 — totality, crashes, consistency, cost *)
+
+(* reader_total: the model is a total function (structural recursion on binary counts and on an
+   explicit fuel for the copy loop); the only loop with fuel is proved to complete: *)
+Theorem reader_total : forall hint mm f, exists o, open_model hint mm f = o.
+Proof. intros. eexists; reflexivity. Qed.
+
+Theorem copy_loop_complete : forall chunk n c l, 0 < chunk -> window_inv chunk c l ->
+  fst (c_gbytes n c) = take_z n l /\ window_inv chunk (snd (c_gbytes n c)) (zskipn n l).
+Proof. intros chunk n c l H Hw. exact (sim_gbytes chunk n c l H Hw). Qed.
+
+(* ---------- crashes ---------- *)
+Definition reader_no_crash_full : Prop :=
+  forall hint mm f s, out_res (open_model hint mm f) <> Crash s.
+
+
+
+Example crash_rndup_int : out_res (open_model 0 1048576 w_rndup_int) = Crash S_rndup_int.
+Proof. vm_compute. reflexivity. Qed.
+Example crash_attr_null : out_res (open_model 0 1048576 w_attr_null) = Crash S_attr_memcpy_null.
+Proof. vm_compute. reflexivity. Qed.
+Example crash_attrV_mul : out_res (open_model 0 1048576 w_attrV_mul) = Crash S_attrV_mul.
+Proof. vm_compute. reflexivity. Qed.
+Example crash_attr_xlen : out_res (open_model 0 1048576 w_attr_xlen) = Crash S_attr_xlen.
+Proof. vm_compute. reflexivity. Qed.
+Example crash_shape_product : out_res (open_model 0 1048576 w_shape_product) = Crash S_shape_product.
+Proof. vm_compute. reflexivity. Qed.
+Example crash_var_calloc : out_res (open_model 0 1048576 w_var_calloc) = Crash S_var_calloc_null.
+Proof. vm_compute. reflexivity. Qed.
+Example crash_check_vlen : out_res (open_model 0 1048576 w_check_vlen) = Crash S_check_vlen_mul.
+Proof. vm_compute. reflexivity. Qed.
+Example crash_begin_len : out_res (open_model 0 1048576 w_begin_len) = Crash S_begin_len.
+Proof. vm_compute. reflexivity. Qed.
+
+Theorem reader_no_crash_refuted : ~ reader_no_crash_full.
+Proof. intros H. apply (H 0 1048576 w_attr_null S_attr_memcpy_null). exact crash_attr_null. Qed.
+
+(* strongest true statement proved: specification-valid files never crash the reader, whatever
+   the chunk size (and are accepted) *)
+Theorem reader_no_crash_partial : forall hint mm f d s,
+  decode f = Some d -> c04_valid mm d = true -> out_res (open_model hint mm f) <> Crash s.
+Proof. intros hint mm f d s Hd Hv. rewrite (reader_accepts_valid hint mm f d Hd Hv). discriminate. Qed.
+
+Example reader_no_crash_partial_ex : exists d, decode ex_valid_file = Some d /\ c04_valid 1048576 d = true.
+Proof. destruct reader_accepts_valid_ex as (d & H1 & H2 & _). now exists d. Qed.
+
+(* ---------- self-consistency of accepted metadata ---------- *)
+Definition reader_result_consistent_full : Prop :=
+  forall hint mm f o, out_res (open_model hint mm f) = Ok o -> consistent o = true.
+
+
+Example inconsistent_numrecs : exists o, out_res (open_model 0 1048576 w_numrecs_neg) = Ok o /\
+  h_numrecs (o_hdr o) = -1 /\ consistent o = false.
+Proof. eexists. vm_compute. repeat split; reflexivity. Qed.
+
+Example inconsistent_dim : exists o, out_res (open_model 0 1048576 w_dim_neg) = Ok o /\
+  map d_size (h_dims (o_hdr o)) = [-9223372036854775803] /\ consistent o = false.
+Proof. eexists. vm_compute. repeat split; reflexivity. Qed.
+
+Theorem reader_result_consistent_refuted : ~ reader_result_consistent_full.
+Proof.
+  intros H. destruct inconsistent_numrecs as (o & Ho & _ & Hc).
+  rewrite (H 0 1048576 w_numrecs_neg o Ho) in Hc. discriminate.
+Qed.
+
+(* what the post-checks DO guarantee for every byte sequence and chunk size: an accepted header
+   with variables has 0 < header size <= begin_var <= begin_rec (data after the header, record
+   section after the fixed section) *)
+Lemma bind_inv : forall S A B (m : P S A) (f : A -> P S B) s b s',
+  bind m f s = (Ok b, s') -> exists a s1, m s = (Ok a, s1) /\ f a s1 = (Ok b, s').
+Proof.
+  intros S A B m f s b s' H. unfold bind in H. destruct (m s) as [[a|e|c] s1]; try discriminate.
+  exists a, s1. split; [reflexivity | exact H].
+Qed.
+
+Lemma hdr_get_NC_inv : forall S (X : src S) mm s o s', hdr_get_NC S X mm s = (Ok o, s') ->
+  exists h (vars : list (var * bool)), h_vars h = map fst vars /\ post_open h (map snd vars) = Ok o.
+Proof.
+  intros S X mm s o s' H. unfold hdr_get_NC in H.
+  apply bind_inv in H. destruct H as (m & s1 & _ & H).
+  destruct (negb (bytes_eqb (zfirstn 3 m) [67; 68; 70])).
+  - apply bind_inv in H. destruct H as (sg & s2 & _ & H). destruct (bytes_eqb sg hdf5_sig); discriminate.
+  - destruct (negb ((znth m 3 0 =? 1) || (znth m 3 0 =? 2) || (znth m 3 0 =? 5))); [discriminate|].
+    apply bind_inv in H. destruct H as (nr & s2 & _ & H).
+    apply bind_inv in H. destruct H as (dims & s3 & _ & H).
+    apply bind_inv in H. destruct H as (gatts & s4 & _ & H).
+    apply bind_inv in H. destruct H as (vars & s5 & _ & H).
+    unfold pure in H.
+    destruct (post_open (mkhdr (znth m 3 0) (to_i64 nr) dims gatts (map fst vars)) (map snd vars)) as [o'| |] eqn:E;
+      try discriminate.
+    inversion H; subst. eexists; exists vars. split; [|exact E]. reflexivity.
+Qed.
+
+Lemma post_open_hdr : forall h soks o, post_open h soks = Ok o -> o_hdr o = h.
+Proof.
+  intros h soks o H. unfold post_open in H.
+  destruct (chk S_hdr_len (hdr_len h)) as [xsz| |]; try discriminate. cbn [rbind] in H.
+  destruct (compute_var_shape xsz (h_dims h) (zip (h_vars h) soks)) as [[[[bv br] rs] lens]| |]; try discriminate.
+  cbn [rbind] in H.
+  destruct (rd_check_vlens _ _) as [e1| |]; try discriminate. cbn [rbind] in H.
+  destruct (negb (e1 =? NC_NOERR)); [discriminate|].
+  destruct (rd_check_voffs _ _ _) as [e2| |]; try discriminate. cbn [rbind] in H.
+  destruct (negb (e2 =? NC_NOERR)); [discriminate|].
+  inversion H; subst o. reflexivity.
+Qed.
+
+Lemma post_open_inv : forall h soks o, post_open h soks = Ok o -> zip (h_vars h) soks <> [] ->
+  0 < l_begin_var (o_lay o) /\ l_xsz (o_lay o) <= l_begin_var (o_lay o) <= l_begin_rec (o_lay o).
+Proof.
+  intros h soks o H Hne. unfold post_open in H.
+  destruct (chk S_hdr_len (hdr_len h)) as [xsz| |]; try discriminate. cbn [rbind] in H.
+  destruct (compute_var_shape xsz (h_dims h) (zip (h_vars h) soks)) as [[[[bv br] rs] lens]| |] eqn:Ec; try discriminate.
+  cbn [rbind] in H.
+  destruct (rd_check_vlens _ _) as [e1| |]; try discriminate. cbn [rbind] in H.
+  destruct (negb (e1 =? NC_NOERR)); [discriminate|].
+  destruct (rd_check_voffs _ _ _) as [e2| |]; try discriminate. cbn [rbind] in H.
+  destruct (negb (e2 =? NC_NOERR)); [discriminate|].
+  inversion H; subst o. cbn [o_hdr o_lay l_xsz l_begin_var l_begin_rec].
+  unfold compute_var_shape in Ec. destruct (zip (h_vars h) soks) as [|p0 ps]; [congruence|].
+  destruct (cvs_loop _ _ _ _ _ _ _) as [[[[[br0 rs0] fv] fr] lens0]| |]; try discriminate. cbn [rbind] in Ec.
+  destruct (match fr with
+            | Some (fb, fl, fraw) => if br0 >? fb then Err NC_ENOTNC else Ok (fb, if rs0 =? fl then fraw else rs0)
+            | None => Ok (br0, rs0) end) as [[br' rs']| |]; try discriminate. cbn [rbind] in Ec.
+  set (bv' := match fv with Some b => b | None => br' end) in *.
+  destruct ((bv' <=? 0) || (xsz >? bv') || (br' <=? 0) || (bv' >? br')) eqn:E; [discriminate|].
+  inversion Ec; subst. repeat rewrite orb_false_iff in E. lia.
+Qed.
+
+Theorem reader_result_consistent_partial : forall hint mm f o,
+  out_res (open_model hint mm f) = Ok o -> h_vars (o_hdr o) <> [] ->
+  0 < l_begin_var (o_lay o) /\ l_xsz (o_lay o) <= l_begin_var (o_lay o) <= l_begin_rec (o_lay o).
+Proof.
+  intros hint mm f o H Hne. rewrite chunk_decode_eq_flat in H. unfold open_flat in H.
+  destruct (inq_file_format f); try discriminate. unfold read_header_flat in H.
+  destruct (hdr_get_NC (list byte) fsrc mm (f, acct0)) as [r s'] eqn:E. cbn [fst] in H. subst r.
+  destruct (hdr_get_NC_inv _ _ _ _ _ _ E) as (h & vars & Hv & Hp).
+  apply (post_open_inv h (map snd vars) o Hp).
+  rewrite Hv, zip_fst_snd. intros Hc. apply Hne. rewrite (post_open_hdr h (map snd vars) o Hp).
+  rewrite Hv, Hc. reflexivity.
+Qed.
+
+Example reader_result_consistent_partial_ex : exists o,
+  out_res (open_model 36 1048576 ex_valid_file) = Ok o /\ h_vars (o_hdr o) <> [] /\ consistent o = true.
+Proof. eexists. vm_compute. repeat split; try reflexivity. discriminate. Qed.
+
+(* ---------- cost ---------- *)
+(* memory and read volume related to the size of the file? (a = 64, b = 4096 + window) *)
+Definition reader_cost_linear_full : Prop :=
+  forall hint mm f,
+    ac_alloc (out_acct (open_model hint mm f)) <= 64 * Zlen f + 4096 + norm_chunk hint /\
+    out_offset (open_model hint mm f) <= Zlen f + 2 * norm_chunk hint.
+
+
+Example cost_alloc_dims :
+  Zlen w_alloc_dims = 48 /\ 17179868672 <= ac_alloc (out_acct (open_model 0 1099511627776 w_alloc_dims)).
+Proof. vm_compute. split; [reflexivity | discriminate]. Qed.
+
+Example cost_read_zeros :
+  Zlen w_read_zeros = 48 /\ out_offset (open_model 4096 1048576 w_read_zeros) = 102400 /\
+  out_fetches (open_model 4096 1048576 w_read_zeros) = 25 /\ out_getsize (open_model 4096 1048576 w_read_zeros) = 48.
+Proof. vm_compute. repeat split; reflexivity. Qed.
+
+Theorem reader_cost_linear_refuted : ~ reader_cost_linear_full.
+Proof.
+  intros H. destruct (H 0 1099511627776 w_alloc_dims) as [H1 _].
+  destruct cost_alloc_dims as [Hl Ha]. rewrite Hl in H1. vm_compute (norm_chunk 0) in H1. lia.
+Qed.
+
+(* what does hold for EVERY input: each fetch after the first advances the file offset by at least
+   chunk-8 bytes (no fetch without progress), so the number of fetches is linear in the number of
+   header bytes consumed *)
+Definition prog (chunk : Z) (c : cst) : Prop :=
+  1 <= c_fetches c /\ (c_fetches c - 1) * (chunk - 8) + chunk <= c_off c.
+
+Lemma prog_adv : forall chunk k c, prog chunk c -> prog chunk (c_adv k c).
+Proof. intros chunk k c H. exact H. Qed.
+
+Lemma prog_fetch : forall chunk c l, 8 <= chunk -> window_inv chunk c l -> prog chunk c ->
+  chunk - c_pos c <= 8 -> 0 < c_pos c -> prog chunk (c_fetch c).
+Proof.
+  intros chunk c l Hch (Hc & Hp & _) [H1 H2] Hs Hpos. unfold prog, c_fetch. cbn [c_fetches c_off]. rewrite Hc.
+  replace (chunk - c_pos c =? chunk) with false by lia. split; [lia|]. nia.
+Qed.
+
+Lemma prog_need : forall chunk k c l, 16 <= chunk -> 0 < k <= 8 -> window_inv chunk c l -> prog chunk c ->
+  prog chunk (c_need k c).
+Proof.
+  intros chunk k c l Hch Hk Hw Hp. unfold c_need. pose proof Hw as (Hc & Hpos & _). rewrite Hc.
+  destruct (c_pos c + k >? chunk) eqn:E; [|exact Hp].
+  eapply prog_fetch; try eassumption; lia.
+Qed.
+
+Lemma prog_copy : forall chunk, 16 <= chunk -> forall fuel n acc c l, window_inv chunk c l -> prog chunk c ->
+  prog chunk (snd (c_copy fuel n acc c)).
+Proof.
+  intros chunk Hch. induction fuel as [|fuel IH]; intros n acc c l Hw Hp; cbn [c_copy]; [exact Hp|].
+  destruct (n <=? 0) eqn:En; [exact Hp|]. pose proof Hw as (Hc & Hpos & _). rewrite Hc.
+  destruct (chunk - c_pos c >? 0) eqn:E.
+  - eapply IH; [|apply prog_adv; exact Hp]. apply window_inv_adv; [exact Hw | lia | lia].
+  - eapply IH; [apply window_inv_fetch; [exact Hw | lia] |]. eapply prog_fetch; try eassumption; lia.
+Qed.
+
+Definition window_prog (chunk : Z) (c : cst) (l : list byte) : Prop := window_inv chunk c l /\ prog chunk c.
+
+Lemma wp_g32 : forall chunk c l, 16 <= chunk -> window_prog chunk c l ->
+  fst (c_g32 c) = fst (f_g32 l) /\ window_prog chunk (snd (c_g32 c)) (snd (f_g32 l)).
+Proof.
+  intros chunk c l Hch [Hw Hp]. destruct (sim_g32 chunk c l ltac:(lia) Hw) as [E Hw'].
+  split; [exact E|]. split; [exact Hw'|].
+  assert (Hs : snd (c_g32 c) = c_adv 4 (c_need 4 c)) by (unfold c_g32; destruct (get_u32 _) as [[v r]|]; reflexivity).
+  rewrite Hs. apply prog_adv. eapply prog_need; try eassumption; lia.
+Qed.
+
+Lemma wp_g64 : forall chunk c l, 16 <= chunk -> window_prog chunk c l ->
+  fst (c_g64 c) = fst (f_g64 l) /\ window_prog chunk (snd (c_g64 c)) (snd (f_g64 l)).
+Proof.
+  intros chunk c l Hch [Hw Hp]. destruct (sim_g64 chunk c l ltac:(lia) Hw) as [E Hw'].
+  split; [exact E|]. split; [exact Hw'|].
+  assert (Hs : snd (c_g64 c) = c_adv 8 (c_need 8 c)) by (unfold c_g64; destruct (get_u64 _) as [[v r]|]; reflexivity).
+  rewrite Hs. apply prog_adv. eapply prog_need; try eassumption; lia.
+Qed.
+
+Lemma wp_gbytes : forall chunk n c l, 16 <= chunk -> window_prog chunk c l ->
+  fst (c_gbytes n c) = fst (f_gbytes n l) /\ window_prog chunk (snd (c_gbytes n c)) (snd (f_gbytes n l)).
+Proof.
+  intros chunk n c l Hch [Hw Hp]. destruct (sim_gbytes chunk n c l ltac:(lia) Hw) as [E Hw'].
+  split; [exact E|]. split; [exact Hw'|].
+  pose proof (prog_copy chunk Hch (Z.to_nat (2 * n + 2)) n [] c l Hw Hp) as Hc.
+  unfold c_gbytes. destruct (c_copy (Z.to_nat (2 * n + 2)) n [] c) as [acc c']. exact Hc.
+Qed.
+
+Lemma wp_gskip : forall chunk k c l, 16 <= chunk -> 0 < k <= 8 -> window_prog chunk c l ->
+  window_prog chunk (c_gskip k c) (f_gskip k l).
+Proof.
+  intros chunk k c l Hch Hk [Hw Hp]. split; [apply sim_gskip; [lia | exact Hk | exact Hw]|].
+  unfold c_gskip. apply prog_adv. eapply prog_need; try eassumption; lia.
+Qed.
+
+Theorem fetch_progress : forall hint mm f v, inq_file_format f = Ok v ->
+  1 <= out_fetches (open_model hint mm f) /\
+  (out_fetches (open_model hint mm f) - 1) * (norm_chunk hint - 8) + norm_chunk hint
+    <= out_offset (open_model hint mm f).
+Proof.
+  intros hint mm f v Hv. unfold open_model. rewrite Hv.
+  destruct (norm_chunk_ok hint) as [H36 _]. set (chunk := norm_chunk hint) in *.
+  assert (Hch : 16 <= chunk) by lia.
+  pose proof (rel_hdr_get_NC cst (list byte) csrc fsrc (window_prog chunk) mm
+                (fun c l => wp_g32 chunk c l Hch) (fun c l => wp_g64 chunk c l Hch)
+                (fun n c l => wp_gbytes chunk n c l Hch)
+                (fun k c l Hk => wp_gskip chunk k c l Hch Hk)) as Hrel.
+  unfold read_header.
+  specialize (Hrel (c_init chunk f, acct0) (f, acct0)).
+  destruct Hrel as [_ [[_ Hp] _]].
+  { split; [|reflexivity]. cbn [fst]. split; [apply window_inv_init; lia|].
+    unfold prog, c_init, c_fetch. cbn [c_fetches c_off c_chunk c_pos].
+    rewrite Z.sub_0_r, Z.eqb_refl. cbv iota. lia. }
+  destruct (hdr_get_NC cst csrc mm (c_init chunk f, acct0)) as [r [c a]]. cbn [fst snd out_fetches out_offset] in *.
+  exact Hp.
+Qed.
+
+Example fetch_progress_ex : exists v, inq_file_format ex_valid_file = Ok v.
+Proof. eexists. vm_compute. reflexivity. Qed.
